@@ -89,6 +89,10 @@ func (sh *SearchHistory) Load() error {
 	if loaded.Entries == nil {
 		loaded.Entries = make([]SearchEntry, 0)
 	}
+	// A file may hold more entries than the maximum in force; keep the newest.
+	if len(loaded.Entries) > loaded.MaxSize {
+		loaded.Entries = loaded.Entries[len(loaded.Entries)-loaded.MaxSize:]
+	}
 	sh.Entries = loaded.Entries
 	sh.MaxSize = loaded.MaxSize
 
